@@ -202,12 +202,38 @@ def k2_kind(F, body, op):
         rl, rp, _s, _d = trans.base_of(body, d.call.args[0])
         if body.is_param(rl):
             return 'param'
+        if rl is not None and not rp:
+            # the parameter of an opening function that was inlined: what the call site passed
+            return k2_kind(F, body, {'cp': {'l': rl, 'p': []}})
     return 'unknown'
+
+
+def encs_arm(body, b):
+    """'HEncs' / 'CEncs' when block b is only reached through that arm of a match on an Encapsulations value."""
+    for sb in sorted(body.live_blocks()):
+        t = body.term(sb)
+        if t['k'] != 'switch' or not is_place(t['d']):
+            continue
+        _, d = lib.resolve_copy(body, op_local(t['d']))
+        if d is None or d.kind != 'assign' or d.rv['k'] != 'discr':
+            continue
+        pl = d.rv['pl']
+        ty = body.local_ty(pl['l'])
+        names = field_path(pl)
+        if not (ty.endswith('core::Encapsulations') or (names and names[-1] == 'encapsulations')):
+            continue
+        for v, tgt in t['cases']:
+            if body.edge_dominates((sb, tgt), b):
+                return {0: 'HEncs', 1: 'CEncs'}.get(v)
+    return None
 
 
 def expected_k2(key, fb, c):
     if key.endswith('full_decaps'):
-        return ['param']
+        if fb.kind == 'Closure':
+            return ['param']
+        arm = encs_arm(fb, c.b)
+        return ['Some(kem)'] if arm == 'HEncs' else (['None'] if arm == 'CEncs' else ['(no Encapsulations arm)'])
     if '::h_' in key:
         return ['Some(kem)']
     return ['None']
@@ -239,6 +265,8 @@ def full_decaps_callers(ctx):
         ctx.check(k2 == want, body.key, 'try_decaps(K2=%s) under %s' % (want, 'HEncs' if hyb else 'CEncs'),
                   'the opening closure is called (line %d) with K2 = %s under the %s arm; %s is required' % (
                       c.ln, k2, 'HEncs' if hyb else 'CEncs', want), 'K2 = %s' % k2, c.where())
+    # an opening function inlined at its call sites is decided by the binding rule, arm by arm
+    n += len([c for c in body.calls(r'primitives::H_hash$')])
     ctx.floor(n, 2, 'calls of the opening closure in full_decaps')
 
 
